@@ -7,7 +7,9 @@ EXPLANATION = ("Static rules over quinn-udp / quinn MIR (Linux x86-64 build): (a
                "CMSG_SPACE of every kernel->user message enabled by UdpSocketState::new (per address family, worst case IPv4-mapped on dual-stack); (b) the control length "
                "announced to the kernel is cmsg::LEN and the control pointer is the LEN-sized aligned buffer; iovlen = 1; namelen = sizeof(sockaddr_storage) on receive; "
                "(c) every Encoder is finished before sendmsg; cmsg::decode::<T> is used with the kernel type of each (level, type); (d) segmentation request only when "
-               "segment_size < len, independent of the einval fallback flag; ECN / source address control messages carry the transmit's values in the right fields; the "
+               "segment_size < len, independent of the einval fallback flag; ECN / source address control messages carry the transmit's values in the right fields; walked path by path, prepare_msg pushes IP_TOS or "
+               "IPV6_TCLASS for every destination unless the EINVAL fallback flag is set, and whether IPV6_TCLASS is pushed depends on the tests of transmit.destination alone "
+               "(the fallback may only drop IP_TOS); the "
                "receive stride defaults to len and is overridden only by UDP_GRO; (e) offload degradation: EIO/EINVAL stores max_gso_segments = 1 and, the first time, "
                "re-prepares the message and retries; Interrupted loops, WouldBlock is returned; (f) batch splitting in the async endpoint by meta.len / meta.stride and "
                "field-for-field Transmit conversion; (g) the socket-wide UDP_SEGMENT option set by the GSO support probe is set back to 0 on every successful path, so that transmits "
@@ -336,6 +338,251 @@ def _conveys_ecn(F, v):
     return True
 
 
+def _kids(x):
+    t = x[0] if x else None
+    if t in ('field', 'variant', 'index', 'discr', 'overflow'):
+        return (x[1],)
+    if t == 'un':
+        return (x[2],)
+    if t == 'bin':
+        return (x[2], x[3])
+    if t in ('call', 'agg'):
+        return tuple(x[3])
+    if t == 'phi':
+        return tuple(x[1])
+    return ()
+
+
+def _function_of(d, root_ok):
+    """the value is computed from nothing but sub-values accepted by root_ok (at least one) and literals: no other parameter,
+    capture, unexpanded local or argument-less call takes part"""
+    n = [0]
+
+    def rec(x):
+        if not isinstance(x, tuple) or not x:
+            return True
+        if root_ok(x):
+            n[0] += 1
+            return True
+        if x[0] in ('param', 'upvar', 'local') or (x[0] == 'call' and not x[3]):
+            return False
+        return all(rec(k) for k in _kids(x))
+    return rec(d) and n[0] > 0
+
+
+def _int_operand(o):
+    return int(o[2]) if o[0] not in ('c', 'm') and o[1] == 'int' and str(o[2]).lstrip('-').isdigit() else None
+
+
+def _tuple_elems(ty):
+    """element types of a tuple type string `(A, B)`, else []"""
+    if not (ty.startswith('(') and ty.endswith(')')):
+        return []
+    out, depth, cur = [], 0, ''
+    for ch in ty[1:-1]:
+        if ch in '(<[':
+            depth += 1
+        elif ch in ')>]':
+            depth -= 1
+        if ch == ',' and depth == 0:
+            out.append(cur.strip())
+            cur = ''
+        else:
+            cur += ch
+    if cur.strip():
+        out.append(cur.strip())
+    return out
+
+
+def _feasible_paths(F, body, events, cap=50000):
+    """Path-sensitive walk of `body` (entry -> normal return).  Integer / bool cells (a local, or one field of a local tuple as
+    in `match (a, b)`) assigned literals, copies and `!` of each other are tracked; a SwitchInt on a known value only takes its
+    matching edge (so materialised booleans such as `let v4 = a || matches!(..)`, `let t = v4 && !flag` are resolved per
+    path); a SwitchInt on an unknown value forks, records the decision (block -> value) and remembers the value for later tests
+    of the same cell.  events: block -> label.
+    Returns [(decisions {bb: value | 'else'}, labels passed, known values {cell: int})] or None (more than `cap` states)."""
+    noaddr = describer(F, body).mut_borrowed
+
+    def cell(pl):
+        if pl[0] in noaddr:
+            return None
+        if not pl[1]:
+            return pl[0]
+        if len(pl[1]) == 1 and isinstance(pl[1][0], list) and pl[1][0][0] == 'f':
+            return (pl[0], str(pl[1][0][1]))
+        return None
+
+    def isbool(c):
+        if isinstance(c, int):
+            return body.locals[c][0] == 'bool'
+        el = _tuple_elems(body.locals[c[0]][0])
+        return c[1].isdigit() and int(c[1]) < len(el) and el[int(c[1])] == 'bool'
+    out, seen = [], set()
+    stack = [(0, {}, {}, {}, frozenset())]
+    while stack:
+        bb, val, sym, dec, ev = stack.pop()
+        key = (bb, frozenset(val.items()), frozenset(sym.items()), frozenset(dec.items()), ev)
+        if key in seen:
+            continue
+        seen.add(key)
+        if len(seen) > cap:
+            return None
+        val, sym = dict(val), dict(sym)
+        if bb in events:
+            ev = ev | {events[bb]}
+
+        def kill(pl):
+            c = cell(pl)
+            whole = c is None or isinstance(c, int)
+            dead = lambda k: k == c or (whole and (k == pl[0] or (isinstance(k, tuple) and k[0] == pl[0])))
+            for k in [k for k in val if dead(k)]:
+                del val[k]
+            for k in [k for k, (r, _) in sym.items() if dead(k) or dead(r)]:
+                del sym[k]
+
+        def copy(x, o, neg):
+            c = _int_operand(o)
+            y = cell(o[1]) if o[0] in ('c', 'm') else None
+            if c is not None:
+                val[x] = (1 - c) if neg else c
+            elif y is not None and y != x:
+                if y in val:
+                    val[x] = (1 - val[y]) if neg else val[y]
+                else:
+                    r, n = sym.get(y, (y, False))
+                    sym[x] = (r, n != neg)
+        blk = body.blocks[bb]
+        for st in blk['s']:
+            if st[0] not in ('=', 'sd'):
+                continue
+            kill(st[1])
+            x = cell(st[1])
+            if st[0] == '=' and x is not None:
+                rv = st[2]
+                if rv[0] == 'use':
+                    copy(x, rv[1], False)
+                elif rv[0] == 'un' and rv[1] == 'Not' and isbool(x):
+                    copy(x, rv[2], True)
+                elif rv[0] == 'agg' and rv[1][0] == 'tuple' and isinstance(x, int):
+                    for i, o in enumerate(rv[2]):
+                        copy((x, str(i)), o, False)
+        t = blk['t']
+        if t[0] == 'call':
+            kill(t[1]['dst'])
+        elif t[0] == 'yield':
+            kill(t[3])
+        if t[0] != 'switch':
+            if t[0] == 'ret':
+                out.append((dec, ev, val))
+            for s in body.succ[bb]:
+                stack.append((s, val, sym, dec, ev))
+            continue
+        o = t[1]
+        listed = [int(v) for v, _ in t[2]]
+        edges = [(int(v), tgt) for v, tgt in t[2]] + [('else', t[3])]
+        known = _int_operand(o)
+        y = cell(o[1]) if o[0] in ('c', 'm') else None
+        if known is None and y is not None:
+            known = val.get(y)
+        if known is not None:
+            tgt = dict(edges).get(known, t[3])
+            if not body.blocks[tgt]['c']:
+                stack.append((tgt, val, sym, dec, ev))
+            continue
+        for v, tgt in edges:
+            if body.blocks[tgt]['c']:
+                continue
+            v2, s2 = dict(val), dict(sym)
+            num = v if v != 'else' else None
+            label = v
+            if num is None and len(listed) == 1 and listed[0] in (0, 1):
+                label = 1 - listed[0]           # two-valued discriminant (bool, Option, IpAddr): the other value
+                if y is not None and isbool(y):
+                    num = label
+            if num is not None and y is not None:
+                v2[y] = num
+                r, n = sym.get(y, (y, False))
+                if not n:
+                    v2[r] = num
+                elif num in (0, 1) and isbool(r):
+                    v2[r] = 1 - num
+                if r in v2:
+                    for k, (r2, n2) in sym.items():
+                        if r2 == r and (not n2 or v2[r] in (0, 1)):
+                            v2[k] = (1 - v2[r]) if n2 else v2[r]
+                            s2.pop(k, None)
+            d2 = dict(dec)
+            d2[bb] = label
+            stack.append((tgt, v2, s2, d2, ev))
+    return out
+
+
+def _ecn_absent_on(desc, v, is_ecn):
+    """the decision `desc == v` says that the transmit carries no ECN codepoint (transmit.ecn is None)"""
+    if desc[0] == 'discr' and is_ecn(desc[1]):
+        return v == 0
+    inner, neg = peel_not(desc)
+    if inner[0] == 'call' and len(inner[3]) == 1 and is_ecn(inner[3][0]) and v in (0, 1):
+        if _is_call(inner, 'Option::is_some'):
+            return (v == 1) == neg
+        if _is_call(inner, 'Option::is_none'):
+            return (v == 1) != neg
+    return False
+
+
+def _ecn_per_destination(ctx, pm, tos, tclass):
+    """Which ECN control message a datagram gets is decided by its destination, also after the EINVAL / EIO fallback:
+      (1) on every feasible path entry -> return of prepare_msg on which the fallback flag (the parameter fed from
+          UdpSocketState::sendmsg_einval by the callers) is not known to be set, an IP_TOS or IPV6_TCLASS message is pushed;
+      (2) whether IPV6_TCLASS is pushed is a function of the decisions taken on transmit.destination alone: two feasible
+          paths that agree on every destination test they share either both push it or both do not.  (The fallback mode may
+          drop IP_TOS — old kernels reject it — but a native IPv6 destination keeps its traffic class; with (1) it has one.)
+    Paths on which transmit.ecn is known to be None are exempt (no codepoint to convey)."""
+    F = ctx.facts
+    i1, i2 = 'ecn_pushed_for_every_destination', 'ipv6_traffic_class_decided_by_destination_only'
+    if not tos or not tclass:
+        return          # reported by ecn_conveyed_v4_and_v6
+    tr = [l for l in range(1, pm.argc + 1) if 'Transmit' in pm.locals[l][0]]
+    is_tr = lambda x: x[0] == 'param' and x[1] in tr
+    is_dest = lambda x: x[0] == 'field' and x[2] == 'destination' and is_tr(x[1])
+    is_ecn = lambda x: x[0] == 'field' and x[2] == 'ecn' and is_tr(x[1])
+    callers = [c for c in F.callers_of(pm.id, crate='quinn_udp') if c.f == pm.id]
+    fb = [l for l in range(1, pm.argc + 1) if pm.locals[l][0] == 'bool' and callers and
+          all(D.has_call(arg_desc(F, c, l - 1), 'UdpSocketState::sendmsg_einval') or D.has_field(arg_desc(F, c, l - 1), 'sendmsg_einval') for c in callers)]
+    if not fb:
+        fb = [l for l in range(1, pm.argc + 1) if pm.locals[l][1] == 'sendmsg_einval']
+    events = {c.bb: 'tos' for c in tos}
+    events.update({c.bb: 'tclass' for c in tclass})
+    paths = _feasible_paths(F, pm, events)
+    if not paths or len(tr) != 1 or len(fb) != 1:
+        for inst in (i1, i2):
+            ctx.bad('d', inst, pm, pm.where(), 'prepare_msg can no longer be walked path by path (transmit parameter %s, fallback flag parameter %s, %s paths): which ECN message a destination gets is undecided' % (tr, fb, 'too many' if paths is None else len(paths)))
+        return
+    brs = {br.bb: br for br in branches(F, pm)}
+    desc_of = lambda bb: brs[bb].desc if bb in brs else ('local', -1, '?')
+    on_dest = {bb for bb in {b for dec, _, _ in paths for b in dec} if _function_of(desc_of(bb), is_dest)}
+    live = [p for p in paths if not any(_ecn_absent_on(desc_of(bb), v, is_ecn) for bb, v in p[0].items())]
+    lost = [p for p in live if p[2].get(fb[0]) != 1 and not p[1]]
+
+    def tests(dec, only=None):
+        return sorted({'%s = %s' % (D.render(desc_of(bb))[:70], v) for bb, v in dec.items() if only is None or bb in only})
+    ctx.check(not lost, 'd', i1, pm, (tos + tclass)[0].where(), '%d feasible paths; outside the EINVAL fallback every one pushes IP_TOS or IPV6_TCLASS' % len(live),
+              'prepare_msg returns without an IP_TOS / IPV6_TCLASS message although the EINVAL fallback is not active: the ECN codepoint is not conveyed when %s' % (tests(lost[0][0]) if lost else ''))
+    clash = None
+    for a in range(len(live)):
+        for b in range(a + 1, len(live)):
+            p, q = live[a], live[b]
+            if ('tclass' in p[1]) != ('tclass' in q[1]) and all(p[0][k] == q[0][k] for k in on_dest if k in p[0] and k in q[0]):
+                if clash is None or len(p[0]) + len(q[0]) < len(clash[0][0]) + len(clash[1][0]):
+                    clash = (p, q) if 'tclass' in p[1] else (q, p)
+    if clash:
+        p, q = clash
+        why = sorted({D.render(desc_of(k))[:70] for k in set(p[0]) | set(q[0]) if k not in on_dest and p[0].get(k) != q[0].get(k)})
+    ctx.check(clash is None, 'd', i2, pm, tclass[0].where(), 'IPV6_TCLASS pushed or not is determined by %d test(s) on transmit.destination on all %d feasible paths' % (len(on_dest), len(live)),
+              'for one and the same destination (%s) IPV6_TCLASS is pushed on one path and omitted on another; the difference is made by %s: a native IPv6 datagram loses its ECN codepoint (e.g. after the EINVAL / EIO fallback)' % (
+                  '; '.join(tests(clash[0][0], on_dest)) if clash else '', why if clash else ''))
+
+
 def _effective_segment_size(ctx):
     """Transmit::effective_segment_size: a branch with the relation contents.len() <= segment_size on one edge, from which
     every value returned is None, while its other edge returns Some(that segment_size); no Some(..) is produced elsewhere."""
@@ -407,6 +654,8 @@ def rule_d(ctx):
         bad = [c for c in ps if not _conveys_ecn(F, arg_desc(F, c, 3))]
         ctx.check(bool(ps) and not bad, 'd', 'ecn_conveyed_v4_and_v6', pm, (bad or ps or [pm])[0].where(), '%d %s push(es) of transmit.ecn' % (len(ps), ty),
                   'the ECN codepoint of the transmit is not conveyed in %s: %s' % (ty, [D.render(arg_desc(F, c, 3))[:80] for c in bad] or 'no push'))
+    ecn_push = {ty: [c for c in pm.calls_to('Encoder::push') if _name(arg_desc(F, c, 1)) == lv and _name(arg_desc(F, c, 2)) == ty] for lv, ty in (('IPPROTO_IP', 'IP_TOS'), ('IPPROTO_IPV6', 'IPV6_TCLASS'))}
+    _ecn_per_destination(ctx, pm, ecn_push['IP_TOS'], ecn_push['IPV6_TCLASS'])
     pk = [c for c in constructions(F, 'libc::in_pktinfo', 'in_pktinfo', crate='quinn_udp') if c.body.id == pm.id]
     ctx.floor('d', 'in_pktinfo_literals', len(pk), 1)
     for c in pk:
